@@ -90,6 +90,10 @@ def run_check(prop: str, tier: str, seed: int) -> int:
     try:
         if hasattr(mod, "prepare"):
             ctx = mod.prepare(pool, tier, seed, stats)
+        for job, res in (ctx or {}).pop("prejudge", []) if isinstance(ctx, dict) else []:
+            stats.add_result(job, res)
+            for v in _violations_of(mod, job, res, ctx):
+                found.setdefault(v["cls"] + "|" + str(v.get("subject", "")), (job, v))
         run = 0
         sys_jobs = mod.systematic_jobs(tier, seed, ctx) if hasattr(mod, "systematic_jobs") else []
         queue_iter = iter(sys_jobs)
@@ -112,6 +116,8 @@ def run_check(prop: str, tier: str, seed: int) -> int:
             if not jobs:
                 continue
             ress = pool.run(jobs)
+            if hasattr(mod, "before_judge"):
+                mod.before_judge(pool, jobs, ress, ctx)
             for job, res in zip(jobs, ress):
                 stats.add_result(job, res)
                 if res.get("status") in ("harness_error", "zygote_died", "zygote_hung"):
